@@ -107,7 +107,7 @@ var registry = []prop{
 		ID: "C11", Pkg: "props/c11", Level: "exploration",
 		Quick:  tierCfg{Shards: 1, Scale: 1, TimeoutS: 400},
 		Thor:   tierCfg{Shards: 16, Scale: 10, TimeoutS: 2400},
-		Assume: []string{"child commit times are non-decreasing in the version number; all times on a one-second grid", "a child version committed in the same second as the next parent version may or may not be listed as an update of the previous one (the statement does not say)", "pre-commit regime: parent versions more than 2*threshold apart and at most one child version inside each +-threshold window, so the result does not depend on nearest-in-window tie-breaking; no deletions in that regime", "mixed-era histories are not generated"},
+		Assume: []string{"child commit times are non-decreasing in the version number; times on a one-second grid, or in the commit regime on a 250 ms / 100 ms grid (several distinct commit instants inside one wall-clock second)", "a child version committed at the same instant as the next parent version may or may not be listed as an update of the previous one (the statement does not say)", "pre-commit regime: parent versions more than 2*threshold apart and at most one child version inside each +-threshold window, so the result does not depend on nearest-in-window tie-breaking; no deletions in that regime", "mixed-era histories are not generated"},
 	},
 	{
 		ID: "C12", Pkg: "props/c12", Level: "exploration",
